@@ -49,6 +49,10 @@ structure DSt where
   skips : Nat := 0
   busy : Nat := 0
   execs : Nat := 0
+  asyncExecs : Nat := 0
+  exitBeforeInc : Nat := 0     -- a process finished before PluginCheckTask's own +1 (balance -1 for a moment)
+  exitNotIdle : Nat := 0       -- a process finished while its checkable was not idle (paused / dispatched again)
+  counterOverMax : Nat := 0    -- dispatch-time states in which the counter exceeded max (helper unit + plugin unit)
   windows : Nat := 0
   objs : Nat := 0
   reindex : Nat := 0
@@ -78,6 +82,12 @@ structure DSt where
   lastSchedNow : Int := 0      -- time of the last scheduler section
   noWakeups : Nat := 0
   noWakeupCand : Option (Nat × Nat × Int × Int) := none   -- first candidate of the current case
+  notifiedSinceSilent : Bool := true   -- a section that calls m_CV.notify_all() ran since that helper section
+  wakeup : Bool := false               -- scripted wake-up probe (script=wakeup)
+  wakeDelays : Array Int := #[]        -- probe: delay from a silent helper section to the next scheduler section
+  wakeSamples : Nat := 0
+  wakeMedianUs : Int := 0
+  liveCands : Array String := #[]      -- liveness verdicts, decided at the end of the run (machine load is run-wide)
   caseReported : Nat := 0      -- MISMATCH lines printed for the current case (capped)
   caseReportedSpec : Nat := 0  -- SPECFAIL lines printed for the current case (capped)
 
@@ -187,7 +197,7 @@ def handleSched (d : DSt) (n : Nat) (kind : String) (c : Nat) (args obs : List S
   | "obj", _, [i, p, key, now] =>
     match parseBool? i, parseBool? p, parseInt? key, parseInt? now with
     | some i, some p, some key, some now =>
-      let mut d := { d with objs := d.objs + 1 }
+      let mut d := { d with objs := d.objs + 1, notifiedSinceSilent := true }
       if i && !cst.m.inIdle then d := setM d c fun cs => { cs with dueFrom := max key now }
       if cst.op.isNone then
         d ← mismatch d n "obj-outside-operation" c "-" "-"
@@ -204,7 +214,7 @@ def handleSched (d : DSt) (n : Nat) (kind : String) (c : Nat) (args obs : List S
   | "nc", _, [i, p, key, now] =>
     match parseBool? i, parseBool? p, parseInt? key, parseInt? now with
     | some i, some p, some key, some now =>
-      let mut d := { d with reindex := d.reindex + 1 }
+      let mut d := { d with reindex := d.reindex + 1, notifiedSinceSilent := true }
       d := setM d c fun cs => { cs with dueFrom := max key now }
       if !cst.m.inIdle then
         d ← mismatch d n "nc-not-idle" c s!"{showBool i},{showBool p}" (showLoc cst.m)
@@ -249,10 +259,11 @@ def handleSched (d : DSt) (n : Nat) (kind : String) (c : Nat) (args obs : List S
       -- pending set; the slot it frees must wake the scheduler (ExecuteCheckHelper notifies unconditionally), so an entry that
       -- was due all the time must not wait for the scheduler's 0.5 s poll (:121-126).  Candidate here, verdict at the `M` line
       -- (ignored when the process itself was starved of CPU).
-      if d.silentFinNow > d.lastSchedNow && now - d.silentFinNow ≥ 400000 && lateness ≥ 400000 then
+      if d.silentFinNow > d.lastSchedNow && !d.notifiedSinceSilent && now - d.silentFinNow ≥ 400000 && lateness ≥ 400000 then
         d := { d with noWakeups := d.noWakeups + 1 }
         if d.noWakeupCand.isNone then
           d := { d with noWakeupCand := some (n, c, lateness, now - d.silentFinNow) }
+      if d.wakeup && d.silentFinNow > d.lastSchedNow then d := { d with wakeDelays := d.wakeDelays.push (now - d.silentFinNow) }
       d := { d with lastSchedNow := now }
       let modelSkips := Chk.skips (d.cs.getD c {}).m.forced true cst.enabled true
       if modelSkips == isPick then
@@ -290,9 +301,24 @@ def handleSched (d : DSt) (n : Nat) (kind : String) (c : Nat) (args obs : List S
     if busy then d := { d with busy := d.busy + 1, caseBusy := d.caseBusy + 1 }
     return d
   | "gR", _, _ =>
-    match act d (.result c) c with
+    -- ProcessCheckResult reset the flag: the result of a finished plugin process, or of the command body in the helper
+    match act d (if cst.m.pz > 0 then .procResult c else .result c) c with
     | some d => return d
-    | none => mismatch d n "result-without-execution" c "-" "hx=0"
+    | none => mismatch d n "result-without-execution" c "-" "hx=0,pz=0"
+  | "as", _, _ =>
+    match act d (.spawn c) c with
+    | some d => return { d with asyncExecs := d.asyncExecs + 1 }
+    | none => mismatch d n "spawn-without-execution" c "-" "hx=0"
+  | "pi", _, _ =>
+    match act d (.pluginInc c) c with
+    | some d => return (if d.counter > d.max then { d with counterOverMax := d.counterOverMax + 1 } else d)
+    | none => mismatch d n "plugin-inc-without-spawn" c "-" "hs=0"
+  | "pd", _, _ =>
+    let d := if cst.m.hs > 0 then { d with exitBeforeInc := d.exitBeforeInc + 1 } else d
+    let d := if cst.m.inIdle then d else { d with exitNotIdle := d.exitNotIdle + 1 }
+    match act d (.procExit c) c with
+    | some d => return d
+    | none => mismatch d n "process-exit-without-process" c "-" "procs=0"
   | "dec", _, _ =>
     match act d (.helperDec c) c with
     | some d => return d
@@ -307,7 +333,8 @@ def handleSched (d : DSt) (n : Nat) (kind : String) (c : Nat) (args obs : List S
         d := setM d c fun cs => { cs with m := { cs.m with hd := 1 } }
       if i && !cst.m.inIdle then
         d := setM d c fun cs => { cs with m := { cs.m with nextCheck := key } }
-      if !cst.m.inPending then d := { d with finDropped := d.finDropped + 1, silentFinNow := now }
+      if !cst.m.inPending then d := { d with finDropped := d.finDropped + 1, silentFinNow := now, notifiedSinceSilent := false }
+      else d := { d with notifiedSinceSilent := true }
       let try1 := act d (.helperFinish c) c
       let ok (d' : DSt) : Bool := let x := (d'.cs.getD c {}).m; x.inIdle == i && x.inPending == p
       match try1 with
@@ -342,18 +369,19 @@ def handle (d : DSt) (n : Nat) (line : String) : IO DSt := do
   | "C" :: k :: "sched" :: rest =>
     let d := closeCase d
     let d := { d with caseNo := (parseNat? k).getD (d.caseNo + 1), cases := d.cases + 1, caseReported := 0, caseReportedSpec := 0,
-                      caseBusy := 0, caseForced := 0, caseSkips := 0, noWakeupCand := none,
+                      caseBusy := 0, caseForced := 0, caseSkips := 0, noWakeupCand := none, notifiedSinceSilent := true,
                       silentFinNow := 0, lastSchedNow := 0 }
     match (kvGet rest "max") >>= parseInt?, (kvGet rest "n") >>= parseNat?, (kvGet rest "pool") >>= parseNat?,
           (kvGet rest "bound_ms") >>= parseInt? with
     | some mx, some nn, some pool, some bound =>
-      return { d with sched := true, schedCases := d.schedCases + 1, max := mx, counter := 0, boundUs := bound * 1000,
+      return { d with sched := true, wakeup := kvGet rest "script" == some "wakeup", wakeDelays := #[],
+                      schedCases := d.schedCases + 1, max := mx, counter := 0, boundUs := bound * 1000,
                       sp := { max := mx }, cs := Array.replicate (nn + pool) {} }
     | _, _, _, _ =>
       -- the scenario process produced nothing (crash) or the header is malformed
       IO.println s!"MISMATCH line={n} case={d.caseNo} op=scenario-did-not-run cid=0 impl={String.intercalate "_" rest} model=-"
       return { d with sched := false, mismatches := d.mismatches + 1, cs := #[] }
-  | ["K", c, en, iv, rv] =>
+  | "K" :: c :: en :: iv :: rv :: _ =>
     match parseNat? c, parseBool? en, parseInt? iv, parseInt? rv with
     | some c, some en, some iv, some rv =>
       return setM d c fun cs => { cs with enabled := en, checkUs := iv, retryUs := rv }
@@ -380,8 +408,8 @@ def handle (d : DSt) (n : Nat) (line : String) : IO DSt := do
         let mut d := { d with quiescent := d.quiescent + 1 }
         if x.schedulable != s then
           d ← mismatch d n "quiescent-attributes" c (showBool s) (showBool x.schedulable)
-        if x.hq + x.hx + x.hr + x.hd != 0 then
-          d ← mismatch d n "quiescent-helpers-left" c "0" s!"{x.hq},{x.hx},{x.hr},{x.hd}"
+        if x.hq + x.hx + x.hs + x.hr + x.hd + x.procs + x.pz != 0 || x.pbal != 0 then
+          d ← mismatch d n "quiescent-helpers-left" c "0" s!"{x.hq},{x.hx},{x.hs},{x.hr},{x.hd},{x.procs},{x.pz},{x.pbal}"
         d ← compareLoc d n "quiescent" c i p key
         spec d n c [.quiescent c s i p key nx]
       | _, _, _, _, _ => IO.println s!"BADLINE line={n}"; return d
@@ -396,17 +424,20 @@ def handle (d : DSt) (n : Nat) (line : String) : IO DSt := do
       d ← mismatch d n "counter-at-quiescence" 0 s!"{geti "counter_end"}" s!"{d.counter}"
     let overdue := geti "overdue_max_us"
     let canary := geti "canary_max_us"
-    match d.noWakeupCand with
-    | some (ln, c, late, since) =>
-      if canary < 200000 then
-        if d.caseReportedSpec < 5 then
-          IO.println s!"SPECFAIL line={ln} case={d.caseNo} clause=liveness_no_wakeup_when_slot_freed cid={c} late_us={late} since_finish_us={since}"
-        d := { d with specfails := d.specfails + 1, caseReportedSpec := d.caseReportedSpec + 1 }
+    -- scripted probe (F-C04a, fixed by 31ee201): the slot freed by a helper whose checkable had left the pending set must wake
+    -- the scheduler at once, not only its 0.5 s poll; the median over the repetitions is robust against single stalls of the machine
+    if d.wakeup then
+      let sorted := d.wakeDelays.qsort (· < ·)
+      if sorted.size ≥ 6 then
+        let med := sorted.getD (sorted.size / 2) 0
+        d := { d with wakeSamples := d.wakeSamples + sorted.size, wakeMedianUs := max d.wakeMedianUs med }
+        if med ≥ 300000 then
+          IO.println s!"SPECFAIL line={n} case={d.caseNo} clause=liveness_wakeup_when_slot_freed cid=1 median_delay_us={med} samples={sorted.size}"
+          d := { d with specfails := d.specfails + 1 }
       else d := { d with livenessInconclusive := d.livenessInconclusive + 1 }
-    | none => pure ()
     if overdue > d.boundUs then
-      if canary < 200000 then d ← specName d n 0 "liveness_overdue"
-      else d := { d with livenessInconclusive := d.livenessInconclusive + 1 }
+      let msg := s!"SPECFAIL line={n} case={d.caseNo} clause=liveness_overdue cid=0 overdue_us={overdue} canary_us={canary}"
+      d := { d with liveCands := d.liveCands.push msg }
     return { d with overdueMaxUs := max d.overdueMaxUs overdue, canaryMaxUs := max d.canaryMaxUs canary,
                     maxParallel := max d.maxParallel (geti "max_parallel") }
   | ["U", now, off, chk, rty, soft] =>
@@ -434,10 +465,17 @@ def main : IO Unit := do
   let stdin ← IO.getStdin
   let d ← foldLines stdin handle ({} : DSt)
   let d := closeCase d
+  -- real-time liveness (measured, partial): a verdict only if no scenario process of this run was starved of CPU
+  let mut d := d
+  if d.liveCands.size > 0 then
+    if d.canaryMaxUs < 200000 then
+      for l in d.liveCands.toList.take 3 do IO.println l
+      d := { d with specfails := d.specfails + d.liveCands.size }
+    else d := { d with livenessInconclusive := d.liveCands.size }
   IO.println (s!"STATS cases={d.cases} sched_cases={d.schedCases} steps={d.steps} arith={d.arith} arith_adjusted={d.arithAdj} " ++
-    s!"picks={d.picks} forced_picks={d.forcedPicks} skips={d.skips} guard_busy={d.busy} execs={d.execs} windows={d.windows} " ++
+    s!"picks={d.picks} forced_picks={d.forcedPicks} skips={d.skips} guard_busy={d.busy} execs={d.execs} async_execs={d.asyncExecs} exit_before_plugin_inc={d.exitBeforeInc} exit_while_not_idle={d.exitNotIdle} counter_over_max={d.counterOverMax} windows={d.windows} " ++
     s!"object_sections={d.objs} reindex={d.reindex} erased_while_pending={d.erasedPending} finish_found_gone={d.finDropped} " ++
     s!"ops={d.ops} forces={d.forces} force_ambiguous={d.forceAmb} quiescent={d.quiescent} " ++
     s!"lat_lt1ms={d.lat1ms} lat_lt10ms={d.lat10ms} lat_lt100ms={d.lat100ms} lat_lt1s={d.lat1s} lat_ge1s={d.latMore} lat_max_us={d.latMaxUs} " ++
     s!"overdue_max_us={d.overdueMaxUs} canary_max_us={d.canaryMaxUs} max_parallel={d.maxParallel} " ++
-    s!"liveness_inconclusive={d.livenessInconclusive} no_wakeup_candidates={d.noWakeups} nontrivial={d.nontrivial} mismatches={d.mismatches} specfails={d.specfails}")
+    s!"liveness_inconclusive={d.livenessInconclusive} late_after_silent_finish={d.noWakeups} wakeup_probe_samples={d.wakeSamples} wakeup_probe_median_us={d.wakeMedianUs} liveness_candidates={d.liveCands.size} nontrivial={d.nontrivial} mismatches={d.mismatches} specfails={d.specfails}")
